@@ -34,7 +34,7 @@ def cfg(clients, spec="Spec", wait=True, graceful=True, shared=False, wrapped=Tr
         c.append("INVARIANTS " + " ".join(invariants))
     if properties:
         c.append("PROPERTIES " + " ".join(properties))
-    if spec != "Spec" and spec != "FairSpec":
+    if (spec != "Spec" and spec != "FairSpec") or not allow_stop:
         c.append("CHECK_DEADLOCK FALSE")
     return "\n".join(c) + "\n"
 
@@ -42,7 +42,7 @@ def cfg(clients, spec="Spec", wait=True, graceful=True, shared=False, wrapped=Tr
 def hook_keys(nclients=4):
     keys = [["job.wake", "c"], ["job.request_stop", "m"], ["job.request_stop", "p"], ["job.closing", "c"], ["job.await_return", "c"]]
     keys += [[k, j] for k in ["job.wake", "srv.shutdown.begin", "job.closing", "srv.start.begin", "srv.start.end"] for j in "mp"]
-    keys += [[k, "c%d" % c] for k in ["prove.enter", "prove.decoded", "prove.proved", "prove.respond"] for c in range(1, nclients + 1)]
+    keys += [[k, "c%d" % c] for k in ["prove.enter", "prove.read", "prove.decoded", "prove.proved", "prove.respond"] for c in range(1, nclients + 1)]
     return keys
 
 
@@ -69,6 +69,8 @@ def replay(ctx, behaviours, mode="deletion", depth=2, batch=1, chunk=60):
     the real code the rest is not replayed (each infeasible schedule costs a settle timeout) and is reported as diverged."""
     out = []
     first = 6
+    chunk = 12
+    nbad = 0
     for i in ([0] + list(range(first, len(behaviours), chunk))):
         part = behaviours[i:i + (first if i == 0 else chunk)]
         if not part:
@@ -77,9 +79,53 @@ def replay(ctx, behaviours, mode="deletion", depth=2, batch=1, chunk=60):
         if len(res) != len(part):
             raise Infra("srv-replay returned %d results for %d behaviours" % (len(res), len(part)))
         for b, x in zip(part, res):
-            out.append((b, x.get("observed") or [], x.get("case")))
+            mm = x.get("observed") or []
+            out.append((b, mm, x.get("case")))
+            if any(m["kind"] not in ("waiting", "listener") for m in mm):
+                nbad += 1
         if i == 0 and all(any(m["kind"] in ("waiting", "listener") for m in mm) for _, mm, _ in out):
             for b in behaviours[first:]:
                 out.append((b, [dict(kind="waiting", step=-1, detail="not replayed: the first %d schedules were all infeasible" % first)], None))
             break
+        if nbad >= 3:
+            # enough counterexamples: every further failing schedule costs a settle timeout
+            for b in behaviours[i + len(part):]:
+                out.append((b, [], None))
+            break
     return out
+
+ALL_KINDS = ["valid", "unsat", "malformed", "get", "put", "foo"]
+KIND_JSON = {"valid": dict(method="POST", body="valid"), "unsat": dict(method="POST", body="unsat"), "malformed": dict(method="POST", body="malformed"),
+             "get": dict(method="GET", body="none"), "put": dict(method="PUT", body="none"), "foo": dict(method="FOO", body="none")}
+
+
+def load_and_validate(ctx, kinds, rounds, max_clients, scrapes=3, mode="deletion", depth=2, batch=1, race=False):
+    """Un-gated concurrent load on the real server, then TLC validation of the recorded trace against TraceServer.tla.
+    Returns (round summaries, rejection or None, number of events)."""
+    import os, re
+    tf = os.path.join(ctx.scratch, "load-%d.ndjson" % len(ctx.tlc_runs))
+    summ = ctx.run_vh(["srv-load"], dict(mode=mode, depth=depth, batch=batch, rounds=rounds, maxClients=max_clients, kinds=[KIND_JSON[k] for k in kinds],
+                                         traceFile=tf, scrapesPerRound=scrapes), timeout=3000, race=race)
+    lines = [json.loads(x) for x in open(tf)]
+    files = {"TraceServerRun.tla": "---- MODULE TraceServerRun ----\nEXTENDS TraceServer\nRKS == {%s}\n====\n" % ", ".join(RK[k] for k in ALL_KINDS)}
+    c = ("SPECIFICATION TraceSpec\nCONSTANTS\n Clients = {%s}\n ReqKinds <- RKS\n WaitForStart = TRUE\n Graceful = TRUE\n SharedParams = FALSE\n Wrapped = TRUE\n AllowStop = FALSE\n"
+         "CONSTRAINT HighWater\nPOSTCONDITION TraceAccepted\nINVARIANTS TraceIsolation TraceGauge\nCHECK_DEADLOCK FALSE\n"
+         % ", ".join('"c%d"' % i for i in range(1, max_clients + 2)))
+    r = ctx.tlc("TraceServerRun", c, files=files, workers=1, dfs=True, env_extra={"TRACE_FILE": tf}, label="TraceServer (%d events)" % len(lines),
+                allow_violation=True, timeout=1800)
+    m = re.search(r'<<"HWM", (\d+), (\d+)>>', r["out"])
+    if not m:
+        raise Infra("TraceServer did not report a high-water mark:\n" + "\n".join(r["out"].splitlines()[-30:]))
+    hwm, total = int(m.group(1)), int(m.group(2))
+    rej = None
+    if hwm != total + 1:
+        inv = re.search(r"Invariant (\w+) is violated", r["out"])
+        # the round the rejected line belongs to
+        start = max([i for i in range(hwm) if lines[i]["event"] == "reset"] or [0])
+        rej = dict(line=hwm, event=lines[hwm - 1] if hwm - 1 < len(lines) else None, invariant=inv.group(1) if inv else None, round_events=lines[start:hwm])
+    elif not r["ok"]:
+        raise Infra("TraceServer failed:\n" + "\n".join(r["out"].splitlines()[-30:]))
+    else:
+        ctx.states += r["distinct"]
+        ctx.transitions += r["generated"]
+    return summ, rej, len(lines)
